@@ -97,6 +97,40 @@ theorem mapLoop_inv {DX DY : Mat} {n m : ℕ} (hX : DistMat DX n) (hY : DistMat 
     refine ⟨h1, ?_⟩
     rw [h2]; simp
 
+/-! ### the incremental column selection computes the same loop -/
+
+theorem map_range_getD {α : Type} (DY : Mat) (F : List ℕ → α) :
+    (List.range DY.length).map (fun y => F (DY.getD y [])) = DY.map F := by
+  apply List.ext_getElem
+  · simp
+  · intro i h1 h2
+    have : i < DY.length := by simpa using h2
+    simp [List.getD, this]
+
+theorem mapLoopFast_eq (DX DY : Mat) (rest : List ℕ) (mapped : List (ℕ × ℕ)) (W : Mat) (dist : ℕ)
+    (hW : W = DY.map fun rowY => mapped.map fun p => rowY.getD p.2 0) :
+    mapLoopFast DX DY rest mapped W dist = mapLoop DX DY rest mapped dist := by
+  induction rest generalizing mapped W dist with
+  | nil => simp [mapLoopFast, mapLoop]
+  | cons x rest ih =>
+    simp only [mapLoopFast, mapLoop]
+    have hbs : (W.map fun wy => (List.zipWith absDiff
+          (mapped.map fun p => (DX.getD x []).getD p.1 0) wy).foldl max 0) =
+        (List.range DY.length).map (bottleneck DX DY x mapped) := by
+      rw [hW, List.map_map, ← map_range_getD DY]
+      apply List.map_congr_left
+      intro y _
+      simp only [Function.comp, bottleneck, ent]
+      congr 1
+      rw [List.zipWith_map, List.zipWith_self]
+    rw [hbs]
+    apply ih
+    rw [hW]
+    apply List.ext_getElem
+    · simp
+    · intro i h1 h2
+      simp
+
 /-- **`construct_mapping` returns an actual total map together with its exact distortion.** -/
 theorem constructMapping_exact {DX DY : Mat} {n m : ℕ} (hX : DistMat DX n) (hY : DistMat DY m)
     {pi : List ℕ} {y0 : ℕ} (hpi : pi.Perm (List.range n)) (hy0 : y0 < m)
@@ -110,6 +144,7 @@ theorem constructMapping_exact {DX DY : Mat} {n m : ℕ} (hX : DistMat DX n) (hY
   | nil => simp [constructMapping] at h
   | cons x0 rest =>
     simp only [constructMapping, Except.ok.injEq] at h
+    rw [mapLoopFast_eq DX DY rest [(x0, y0)] _ 0 (by simp)] at h
     have hmem : ∀ x ∈ x0 :: rest, x < n := fun x hx => List.mem_range.1 (hpi.mem_iff.1 hx)
     have hx0 : x0 < n := hmem x0 (by simp)
     have h0 : MapInv DX DY n m [(x0, y0)] 0 := by
